@@ -153,7 +153,25 @@ def mod_multiple_proof():
     return out
 
 
+def mod_neg_zero(y, st):
+    """for st > 0: (-y) % st == 0 iff y % st == 0"""
+    return z3.Implies(st > 0, (S.f_pymod(-y, st) == 0) == (S.f_pymod(y, st) == 0))
+
+
+def mod_neg_zero_proof():
+    y, st, t = z3.Ints("y!l st!l t!l")
+    hyps = _moddefs(y, st) + _moddefs(-y, st)
+    q1, q2 = S.f_pydiv(y, st), S.f_pydiv(-y, st)
+    mono = [z3.Implies(z3.And(t >= 1, st > 0), t * st >= st), z3.Implies(z3.And(t <= -2, st > 0), t * st <= -2 * st),
+            z3.Implies(z3.And(t == -1), t * st == -st), z3.Implies(t == 0, t * st == 0)]
+    out = [("lemma-base", f"mod_neg_zero:mono{i}", [], f) for i, f in enumerate(mono)]
+    inst = [z3.substitute(f, (t, q1 + q2)) for f in mono]
+    out.append(("lemma-step", "mod_neg_zero", hyps + inst, mod_neg_zero(y, st)))
+    return out
+
+
 LEMMAS = {
+    "mod_neg_zero": (mod_neg_zero, mod_neg_zero_proof),
     "mod_multiple": (mod_multiple, mod_multiple_proof),
     "uniform_prefix": (uniform_prefix, uniform_prefix_proof),
     "mod_shift": (mod_shift, mod_shift_proof),
